@@ -9,6 +9,11 @@ def _emptiness(fact, x, is_empty_names, len_names):
     atom, pol = fact
     if atom[0] == "b" and atom[1][0] == "call" and atom[1][1] in is_empty_names and atom[1][2][0] == x:
         return pol
+    if atom[0] == "b" and atom[1][0] == "call" and atom[1][1] in ("PartialEq::eq", "PartialEq::ne") and len(atom[1][2]) == 2 \
+            and "str::is_empty" in is_empty_names:
+        a, b = atom[1][2]
+        if (a == x and b == ("str", "")) or (b == x and a == ("str", "")):     # x == ""
+            return pol if atom[1][1] == "PartialEq::eq" else not pol
     if atom[0] == "cmp":
         nf = fact_nf(fact)
         for ln in len_names:
